@@ -223,7 +223,7 @@ def run(ctx, pid):
         k = dict(constants=tla_consts(c), invariants=inv, properties=props)
         if kind == 'wide':
             return recipe.tlc_only(label, 'Pool', workers=6 if thorough else 4,
-                                   timeout=3000 if thorough else 600, heap='6g', **k)
+                                   timeout=1800 if thorough else 600, heap='6g', budget_ok=True, **k)
         if kind == 'small':
             return recipe.tlc_only(label, 'Pool', emit=True, timeout=3000 if thorough else 600,
                                    heap='3g', **k)
